@@ -84,4 +84,9 @@ CHECKS = {
         quick=dict(groups=[G("stateful", "^TestC10Stateful$", 250, 8)]),
         thorough=dict(groups=[G("stateful", "^TestC10Stateful$", 4000, 16)]),
     ),
+    "C11": dict(
+        title="NNS: only owner/admin/committee may change a name; sub-names need the parent",
+        quick=dict(groups=[G("stateful", "^TestC11Stateful$", 120, 8)]),
+        thorough=dict(groups=[G("stateful", "^TestC11Stateful$", 2500, 16)]),
+    ),
 }
